@@ -179,8 +179,9 @@ func sysMode(kind string) uint64 {
 func devMajor(dev uint64) uint64 { return (dev>>8)&0xfff | (dev>>32)&^0xfff }
 func devMinor(dev uint64) uint64 { return dev&0xff | (dev>>12)&^0xff }
 
-func oracleServe(st Store, c Case, obs serveObs, ctx *hx.Ctx) (problems []string) {
+func oracleServe(st Store, c Case, obs serveObs, ctx *hx.Ctx) (problems []string, findings [][2]string) {
 	bad := func(f string, a ...any) { problems = append(problems, fmt.Sprintf(f, a...)) }
+	finding := func(sig, what string) { findings = append(findings, [2]string{sig, what}) }
 	want, ok := expectedView(c.Tar)
 	if !ok {
 		if !obs.openFailed {
@@ -245,10 +246,10 @@ func oracleServe(st Store, c Case, obs serveObs, ctx *hx.Ctx) (problems []string
 		case !w.explicit:
 			// nothing described
 		case w.mtime == 0:
-			// The TOC omits a modification time equal to the epoch and the stores serve time.Time{} (year 1) for it.
-			// Counted, accepted: reported to the lead as an observation, not a difference of the served content.
+			// The writer omits a modification time equal to the epoch from the TOC and both stores serve time.Time{}
+			// (year 1; the FUSE Mtime wraps) for it: the attribute differs from what the tar describes. Known finding.
 			if mt == zeroTimeUnix {
-				ctx.Count("quirk.mtime_epoch_served_as_zero_time")
+				finding("C02-mtime-epoch-served-as-year-1", fmt.Sprintf("%q: mtime served as year 1 (time.Time{}), the tar says 1970-01-01 (0)", p))
 			} else if mt != 0 {
 				bad("%q: mtime %d, the tar says 0", p, mt)
 			}
@@ -257,7 +258,13 @@ func oracleServe(st Store, c Case, obs serveObs, ctx *hx.Ctx) (problems []string
 		}
 		// link counts: names of a file; "." + parent entry + sub-directories of a directory
 		if a.NumLink != w.nlink {
-			bad("%q: link count %d, expected %d", p, a.NumLink, w.nlink)
+			if k := obs.lateDirs[p]; st.Name == "db" && w.kind == "dir" && k > 0 && a.NumLink == w.nlink+k {
+				// C05 known finding F11 seen from the tar: the db store counts the parent link of a sub-directory twice
+				// when the sub-directory's entry follows an entry below it
+				finding("C02-db-dir-entry-after-child-nlink", fmt.Sprintf("%q: link count %d, expected %d (db store, %d sub-directory entries follow their contents)", p, a.NumLink, w.nlink, k))
+			} else {
+				bad("%q: link count %d, expected %d", p, a.NumLink, w.nlink)
+			}
 		}
 		// FUSE attributes
 		f := g.Fuse
@@ -310,6 +317,17 @@ func oracleServe(st Store, c Case, obs serveObs, ctx *hx.Ctx) (problems []string
 		w := want[fi.owner]
 		if w == nil || w.kind != "reg" {
 			bad("read of %q which the tar does not describe as a regular file", fi.owner)
+			continue
+		}
+		if o.pt {
+			switch {
+			case o.pnc:
+				bad("GetPassthroughFd(%q, mergeBufferSize=%d, workers=%d) panicked", fi.owner, o.mbs, o.workers)
+			case o.err:
+				bad("GetPassthroughFd(%q, mergeBufferSize=%d, workers=%d) failed", fi.owner, o.mbs, o.workers)
+			case !bytes.Equal(o.data, w.data):
+				bad("GetPassthroughFd(%q, mergeBufferSize=%d, workers=%d): the merged file (%d bytes) differs from the file content (%d bytes)", fi.owner, o.mbs, o.workers, len(o.data), len(w.data))
+			}
 			continue
 		}
 		if o.pnc {
